@@ -18,7 +18,7 @@ for i in ids:
         for p in props:
             t0 = time.time()
             pr = subprocess.run([os.path.join(VERIF, 'check'), p, '--tier', tier], cwd=VERIF, stdout=subprocess.PIPE, stderr=subprocess.STDOUT, text=True,
-                                env=dict(os.environ, VERIF_REPO=REPO, VERIF_CACHE=os.environ.get('VERIF_CACHE', '/tmp/verif-cache')))
+                                env=dict(os.environ, VERIF_REPO=REPO, VERIF_EVIDENCE_DIR=os.environ.get('VERIF_EVIDENCE_DIR', '/tmp/verif-evidence-scratch'), VERIF_CACHE=os.environ.get('VERIF_CACHE', '/tmp/verif-cache')))
             lines = pr.stdout.splitlines()
             viol = [l for l in lines if l.startswith('VIOLATION')]
             units = [l.strip() for l in lines if l.strip().startswith('unit:')]
